@@ -259,6 +259,31 @@ theorem C05_enforce_set_only (A : Nat → Nat → K) (b x : Nat → K) (D D' : L
   · funext i j; simp only [enforceMat, hc]
   · funext i; simp only [enforceRhs, hc]
 
+/-- `penalize` likewise depends on `D` only as a set -/
+theorem C05_penalize_set_only (A : Nat → Nat → K) (b x : Nat → K) (D D' : List Nat) (epsInv : K)
+    (h : ∀ i, i ∈ D ↔ i ∈ D') :
+    penalizeMat A D epsInv = penalizeMat A D' epsInv ∧ penalizeRhs b x D epsInv = penalizeRhs b x D' epsInv := by
+  have hc : ∀ i, D.contains i = D'.contains i := by
+    intro i
+    by_cases hi : i ∈ D
+    · rw [contains_eq_true_iff.mpr hi, contains_eq_true_iff.mpr ((h i).mp hi)]
+    · have h1 : D.contains i = false := by simpa using hi
+      have h2 : D'.contains i = false := by simpa using (fun h' => hi ((h i).mpr h'))
+      rw [h1, h2]
+  constructor
+  · funext i j; simp only [penalizeMat, hc]
+  · funext i; simp only [penalizeRhs, hc]
+
+/-- with nothing constrained, all three routes leave the system as it is -/
+theorem C05_empty_D (A : Nat → Nat → K) (b x : Nat → K) (diag epsInv : K) :
+    enforceMat A [] diag = A ∧ enforceRhs b x [] = b
+    ∧ penalizeMat A [] epsInv = A ∧ penalizeRhs b x [] epsInv = b := by
+  refine ⟨?_, ?_, ?_, ?_⟩
+  · funext i j; simp [enforceMat]
+  · funext i; simp [enforceRhs]
+  · funext i j; simp [penalizeMat]
+  · funext i; simp [penalizeRhs]
+
 end Ring2
 
 /-- non-vacuity of `C05_zero_rows_dense`: the `indptr` of the examples is non-decreasing on its
